@@ -196,6 +196,7 @@ func (ex *Exec) havocKey(st *State, key string) {
 		ex.note("cannot havoc heap key %s: unknown sort", key)
 		return
 	}
+	ex.tm.declareSorts(sort)
 	st.Heap[key] = ex.ts.Fresh("H!"+key, sort)
 }
 
